@@ -136,6 +136,35 @@ CHECKS["C20"] = dict(
     ref="DESIGN.md section 4 C20",
     technique="TLA+ smoothing model, TLC enumeration, spec-behaviour replay into Cube")
 
+CHECKS["C13"] = dict(
+    text="Pairwise.tla defines t (formal quotient, sign), the degrees of freedom and the index-"
+         "set rule for proportions (unweighted / effective base) and means (Welch); antisymmetry "
+         "and t(a,a)=0 are checked by TLC as a theorem in every state; seeded insertion / order / "
+         "alpha / only-larger configurations x TLC-enumerated bags; every display column as "
+         "selected column; p-values via the Student-t tail, index sets by the stated rule; the "
+         "legacy accessor is compared too.",
+    ref="DESIGN.md section 4 C13",
+    technique="TLA+ pairwise model + TLC-checked spec theorem, spec-behaviour replay into Cube")
+CHECKS["C18"] = dict(
+    text="Session.tla is the access-history state machine (caller-owned response / transforms "
+         "OBJECTS aliased by cubes and partitions, in-place rewrite on first dimension build, "
+         "per-object caches); TLC checks its design properties (fenced: no lost reference; "
+         "unfenced: regenerates the known counterexample) and enumerates schedules, which are "
+         "replayed on live objects, every read compared with a fresh evaluation; the guarded "
+         "lazyproperty hook records cache event streams of those replays, of long random "
+         "schedules over every public property and of the repository's integration tests, "
+         "validated by TLC against TraceCache.tla.",
+    ref="DESIGN.md section 4 C18, section 2.5",
+    technique="TLA+ state machine model-checked by TLC; behaviours replayed; hook traces validated by TLC (TraceCache.tla)")
+CHECKS["C19"] = dict(
+    text="ElementRef.tla is the ordered resolution cascade over adversarial id schemes; TLC "
+         "checks two resolution theorems on all 13,824 schemes and emits a seeded sample with "
+         "the item every candidate reference denotes; for MR rows / MR columns / CA items x six "
+         "transform slots the library's output with the reference is compared with its output "
+         "with the alias of the denoted item (or without the reference).",
+    ref="DESIGN.md section 4 C19",
+    technique="TLA+ resolution model checked by TLC, spec-behaviour replay into Cube")
+
 NOT_YET = {}
 
 
@@ -171,7 +200,7 @@ def main():
             "enable": "environment variable CRUNCH_CUBE_VERIF=1 (set by ./check); the library is "
                       "imported from /repo/src of the current working tree, no build step",
             "baseline_off_cmd": "cd /repo && env -u CRUNCH_CUBE_VERIF /venv/bin/python -m pytest -ra -q -p no:cacheprovider --timeout=900 --continue-on-collection-errors",
-            "source_commits": [],
+            "source_commits": ["844ca934"],
             "add_only": True,
         },
         "engines": [
